@@ -49,8 +49,8 @@ TSpec == TInit /\ [][TNext]_l
 Consumed == TLCGet("stats").diameter - 1 = Len(Trace)
 
 WellFormedEvents == { i \in 1 .. Len(Trace) : C13WellFormed(Trace[i], Inv, NPool) }
-SinglesSeen == UNION { C13SinglesOf(Trace[i], Pool) : i \in WellFormedEvents }
-PairsSeen   == UNION { C13PairsOf(Trace[i], Pool) : i \in { j \in WellFormedEvents : EvArity(Trace[j]) \in 1 .. 2 } }
+SinglesSeen == C13SinglesSeen(Trace, WellFormedEvents, Pool)
+PairsSeen   == IF WantPairs THEN C13PairsSeen(Trace, WellFormedEvents, Pool) ELSE {}
 MissingSingles == C13SingleObligations(Inv, Pool) \ SinglesSeen
 MissingPairs   == IF WantPairs THEN C13PairObligations(Inv, Pool) \ PairsSeen ELSE {}
 
